@@ -811,6 +811,7 @@ def check_C14(ctx):
 
 
 def check_C05(ctx):
+    session_corr(ctx, 12 if ctx.quick else 200)
     consts_compare(ctx, ['SQUARE_STRINGS', 'PIECE_STRINGS', 'CASTLING_RIGHTS', 'REP_CAPACITY'])
     kf = known_findings()
     n = 200 if ctx.quick else 5000
